@@ -188,6 +188,10 @@ def command_stream_tensors(out_bytes):
 
 def model_records(run, nmodels, sd, t0):
     entries = corpus.draw(nmodels, sd + 17)
+    shapes = corpus.shape_sample(sd, "quick" if nmodels < 100 else "thorough", k=4, thorough=4)      # graph shapes (corpus_shapes.py)
+    for i, e in enumerate(shapes):
+        e["id"] = len(entries) + i
+    entries = entries + shapes
     rng = random.Random(sd + 17)
     for i, e in enumerate(entries):
         e["opts"]["accel"] = ACCELS[i % 6] if i < 12 else e["opts"]["accel"]
